@@ -32,6 +32,15 @@ class _Logged(desper.Processor):
     def process(self, dt):
         self.log.append(('process', self, dt))
 
+    def _saw(self, event):
+        """Lifecycle callback: look at the world from inside (plain reads) and record what was seen."""
+        w = self.world
+        listed = found = None
+        if w is not None:
+            listed = w.processors
+            found = w.get_processor(type(self))
+        self.log.append((event, self, w, listed, found))
+
     def __repr__(self):
         return self.label
 
@@ -39,10 +48,10 @@ class _Logged(desper.Processor):
 @desper.event_handler('on_add', 'on_remove')
 class P0(_Logged):              # class default priority: inherited 0
     def on_add(self):
-        self.log.append(('on_add', self, self.world))
+        self._saw('on_add')
 
     def on_remove(self):
-        self.log.append(('on_remove', self, self.world))
+        self._saw('on_remove')
 
 
 class P1(P0):                   # subclass of P0, inherits the handler mapping
@@ -54,10 +63,10 @@ class P2(_Logged):
     priority = 5
 
     def on_add(self):
-        self.log.append(('on_add', self, self.world))
+        self._saw('on_add')
 
     def on_remove(self):
-        self.log.append(('on_remove', self, self.world))
+        self._saw('on_remove')
 
 
 class P3(_Logged):              # not an event handler
@@ -69,7 +78,7 @@ class P4(_Logged):              # an event handler that does not listen to on_re
     priority = 2
 
     def on_add(self):
-        self.log.append(('on_add', self, self.world))
+        self._saw('on_add')
 
 
 @desper.event_handler('on_remove')
@@ -77,7 +86,7 @@ class P5(_Logged):              # an event handler that does not listen to on_ad
     priority = 1
 
     def on_remove(self):
-        self.log.append(('on_remove', self, self.world))
+        self._saw('on_remove')
 
 
 TYPES = [P0, P1, P2, P3, P4, P5]
@@ -178,6 +187,11 @@ def expect_events(sp, log, expected, when):
     ok = len(got) == len(expected) and all(
         sum(1 for g in got if g[0] == e[0] and g[1] is e[1]) == 1 for e in expected)
     sp.check(ok, 'lifecycle-callbacks', '%s: callbacks delivered %r, expected %r' % (when, got, expected))
+    for x in log:
+        # delivered during the operation itself: the processor that is told on_add is already listed
+        if x[0] == 'on_add':
+            sp.check(x[2] is not None and x[3] is not None and any(q is x[1] for q in x[3]), 'on_add-sees-itself',
+                     '%s: inside on_add of %r world.processors read %r' % (when, x[1], x[3]))
     del log[:]
 
 
@@ -249,6 +263,9 @@ def h_procs(sp, L=3, n_types=4, mid_process=True, build=0, readd=True, pick=None
                     sp.cover('replace')
                     if 'on_remove' in EVENTS[T]:
                         expected.append(('on_remove', old))
+                        if m.enabled:
+                            # old.on_remove runs in the middle of add_processor and reads world.processors
+                            sp.cover('callback-read-during-replacement')
                 if 'on_add' in EVENTS[T]:
                     expected.append(('on_add', p))
                 explicit = bool(explicit_ok and sp.flag('explicit%d' % step))
@@ -361,7 +378,7 @@ def h_procs(sp, L=3, n_types=4, mid_process=True, build=0, readd=True, pick=None
     sp.done()
 
 
-_TAGS = ['replace', 'remove', 'remove-subtype', 'explicit', 'default', 'explicit-vs-explicit', 'tie-of-defaults',
+_TAGS = ['replace', 'callback-read-during-replacement', 'remove', 'remove-subtype', 'explicit', 'default', 'explicit-vs-explicit', 'tie-of-defaults',
          'three-or-more', 'process-several', 'frame-after-replace-or-remove']
 _DISABLED = ['start-disabled', 'disable-mid-history', 'add-while-disabled', 'replace-while-disabled',
              'remove-while-disabled', 'remove-handler-without-on_remove', 'add-handler-without-on_add-while-disabled',
@@ -439,6 +456,10 @@ ASSUMPTIONS = [
     'processor.world after removal is not specified by the statement: not checked',
     '"with that dt" is checked by object identity; dt is an instance of a float subclass',
     'the relative order of the replaced instance\'s on_remove and the new instance\'s on_add is not specified',
+    'every on_add/on_remove callback of the harness processors reads world.processors and '
+    'world.get_processor(type(self)) (plain reads); what a callback sees is only checked for on_add delivered '
+    'during add_processor itself (the processor is already listed); the usual oracle after the operation must '
+    'hold regardless of such reads',
     'on_add/on_remove are checked for handler processors only (P3 has no __events__; P4 maps on_add only, P5 '
     'on_remove only)',
 ]
